@@ -980,13 +980,20 @@ pub fn run_c14(tier: Tier, seed: u64) -> i32 {
             let k = rng.range(2, 4) as usize;
             let n = rng.range(1, 5) as usize;
             crate::hook::install();
-            let g = Arc::new(UuidGenerator::new(ns));
+            // the generator is created by whichever worker gets there first, so the creating
+            // thread is one of the contenders (every other program: created by the harness thread)
+            let by_worker = pi % 2 == 0;
+            let cell: Arc<std::sync::OnceLock<UuidGenerator>> = Arc::new(std::sync::OnceLock::new());
+            if !by_worker {
+                let _ = cell.set(UuidGenerator::new(ns));
+            }
             let got: Arc<Mutex<Vec<(usize, Uuid)>>> = Arc::new(Mutex::new(Vec::new()));
             let mut bodies: Vec<Body> = Vec::new();
             for t in 0..k {
-                let g = g.clone();
+                let cell = cell.clone();
                 let got = got.clone();
                 bodies.push(Box::new(move |_wk: &Worker| {
+                    let g = cell.get_or_init(|| UuidGenerator::new(ns));
                     for _ in 0..n {
                         let id = g.next();
                         got.lock().unwrap().push((t, id));
@@ -1046,12 +1053,14 @@ pub fn run_c14(tier: Tier, seed: u64) -> i32 {
         let threads = ncpu().min(16);
         let calls = budget(tier, 60_000, 1_000_000);
         let ns = Uuid::from_u128(seed as u128 * 0x9E37_79B9_7F4A_7C15);
-        let g = Arc::new(UuidGenerator::new(ns));
+        let cell: Arc<std::sync::OnceLock<UuidGenerator>> = Arc::new(std::sync::OnceLock::new());
         let all: Vec<Vec<Uuid>> = std::thread::scope(|s| {
             let hs: Vec<_> = (0..threads)
                 .map(|t| {
-                    let g = g.clone();
+                    let cell = cell.clone();
                     s.spawn(move || {
+                        // created by whichever of the contending threads arrives first
+                        let g = cell.get_or_init(|| UuidGenerator::new(ns));
                         crate::hook::delay_begin(seed ^ t as u64, 8);
                         crate::hook::count_reset(u64::MAX); // bounded by its call count
                         let v: Vec<Uuid> = (0..calls).map(|_| g.next()).collect();
@@ -1085,6 +1094,47 @@ pub fn run_c14(tier: Tier, seed: u64) -> i32 {
                 json!({"engine": "e2-idgen", "property": "C14", "seed": seed, "missing": missing}),
             );
         }
+    }
+    // generators restored from their serialized form with the counter at boundary values: the
+    // ids that follow must be distinct, and two equally restored generators must agree
+    {
+        let mut rng = Rng::derive(seed ^ 0x14b, 0);
+        let starts: Vec<u64> = vec![
+            0, 9, 99, 999_999, (1 << 32) - 2, (1 << 53) - 2, 999_999_999_999_999_7, 9_999_999_999_999_996, 10_000_000_000_000_000,
+            99_999_999_999_999_990, (1 << 63) - 3, 9_999_999_999_999_999_990, u64::MAX - 40,
+        ];
+        let mut restored = 0u64;
+        for st in starts {
+            for _ in 0..3 {
+                let ns = Uuid::from_u128(rng.next_u64() as u128 | ((rng.next_u64() as u128) << 64));
+                let js = format!("{{\"namespace\":\"{}\",\"counter\":{}}}", ns, st);
+                let (a, b) = match (serde_json::from_str::<UuidGenerator>(&js), serde_json::from_str::<UuidGenerator>(&js)) {
+                    (Ok(a), Ok(b)) => (a, b),
+                    _ => {
+                        rep.inconclusive(format!("a generator could not be restored from {}", js));
+                        continue;
+                    }
+                };
+                restored += 1;
+                let ia: Vec<Uuid> = (0..24).map(|_| a.next()).collect();
+                let ib: Vec<Uuid> = (0..24).map(|_| b.next()).collect();
+                let set: HashSet<Uuid> = ia.iter().copied().collect();
+                rep.evaluations += 1;
+                if set.len() != ia.len() {
+                    rep.violation(
+                        format!("a generator restored with counter {} issued only {} distinct ids in 24 calls", st, set.len()),
+                        json!({"engine": "idgen-restored", "property": "C14", "state": js, "ids": ia.iter().map(|i| i.to_string()).collect::<Vec<_>>()}),
+                    );
+                }
+                if ia != ib {
+                    rep.violation(
+                        format!("two generators restored from the same state (counter {}) issued different ids", st),
+                        json!({"engine": "idgen-restored", "property": "C14", "state": js}),
+                    );
+                }
+            }
+        }
+        rep.add("restored_generators_checked", restored);
     }
     if tier == Tier::Thorough && std::env::var("PLV_NO_MIRI").is_err() {
         crate::miri::sweep(&mut rep, "id generator", seed ^ 0x1414, 4, budget(tier, 0, 64), "0.05");
